@@ -4,6 +4,7 @@ from gens import fa as G
 from models import fa as M
 from sim.core import FAILED
 
+from props import scaled as SC
 ID = "C01"
 CASES = {"quick": 2500, "thorough": 40000}
 RULE = ("seeded epsilon-NFA/NFA/DFA descriptors (<=5 states, <=3 symbols, <=9 transitions, value pools "
@@ -13,6 +14,9 @@ RULE = ("seeded epsilon-NFA/NFA/DFA descriptors (<=5 states, <=3 symbols, <=9 tr
 
 
 def gen(rng, tier):
+    sc = SC.maybe(rng, ID)
+    if sc is not None:
+        return sc
     if tier == "thorough" and rng.chance(0.25):
         c = G.gen_fa(rng, max_states=7, max_trans=13)       # larger shapes in the deep tier
     else:
@@ -25,6 +29,12 @@ def gen(rng, tier):
 
 
 def shrink(case):
+    if SC.is_scaled(case):
+        return iter(())
+    return _shrink(case)
+
+
+def _shrink(case):
     return G.shrink_fa(case)
 
 
@@ -42,6 +52,8 @@ def _shape_ok(out, op, res, want_det, want_eps_free):
 
 
 def run(case, out):
+    if SC.is_scaled(case):
+        return SC.run(case, out)
     from pyformlang.finite_automaton import (DeterministicFiniteAutomaton, NondeterministicFiniteAutomaton,
                                               EpsilonNFA)
     ref = G.ref_of(case)
